@@ -94,4 +94,54 @@ var checks = []Check{
 		DesignRef: "DESIGN.md §6 C12",
 		Technique: technique,
 	},
+	{
+		ID: "C13", Title: "Built-in functions do what their documentation says", Level: "model_checking",
+		Units: []Unit{evalUnit([]string{"evaluator/common.go", "evaluator/c13.go"},
+			Harness{Fn: "ZZC13Math", Expect: []string{"math-min", "math-atan2", "math-round", "witness:end"}, Cross: true},
+			Harness{Fn: "ZZC13Rand", Expect: []string{"rand-ok", "rand-err", "stub:rand.Int31n", "witness:end"}},
+			Harness{Fn: "ZZC13Conv", Quick: p("H", 2), Thorough: p("H", 3), Expect: []string{"conv-ok", "witness:end"}},
+			Harness{Fn: "ZZC13Outcome", Expect: []string{"exit", "panic", "test1", "test2", "test3", "testbad", "witness:end"}},
+			Harness{Fn: "ZZC13Hsl", Expect: []string{"hsl-ok", "hsl-err", "witness:end"}},
+			Harness{Fn: "ZZC13Len", Quick: p("N", 3), Thorough: p("N", 6), Expect: []string{"witness:end"}},
+		)},
+		Assumptions: []string{
+			"math.Mod/Pow/Log/Sin/Cos/Atan2 are uninterpreted functions (equal arguments give equal results); Abs/Floor/Ceil/Round/Sqrt/Min/Max are FP-theory terms with Go's NaN/±0/±Inf rules",
+			"(*rand.Rand).Int31n(n) is a contract stub: host panic for n<=0, otherwise any r with 0<=r<n; Float64 any r in [0,1)",
+			"strconv.ParseFloat/ParseBool/Quote and fmt verbs are the Go standard library's (native bridge on concrete strings)",
+			"hsl: NaN components excluded (documentation silent)",
+		},
+		Outside:   []string{"digit generation of FormatFloat / Sprintf", "string built-ins on strings outside the class sets", "graphics built-ins (C19)"},
+		LevelText: "bounded symbolic execution of the built-in table (newBuiltins, xyRetBuiltin/numRetBuiltin wrappers, randFunc, rand1Func, str2numFunc, str2boolFunc, globalErr, exitFunc, panicFunc, testFunc, same*, validateTestArgs, testMessage, hslFunc, lenFunc) and of evalFunccall/TestInfo.Report: every numeric argument an unconstrained float64, the random source an arbitrary in-contract value, strings from class sets; outcomes compared with the documentation",
+		LevelNote: "trusts the documentation transcription in the harness, the FP models of math.*, the engine and cvc5",
+		DesignRef: "DESIGN.md §6 C13",
+		Technique: technique,
+	},
+	{
+		ID: "C14", Title: "Running programs stay interruptible and stop cleanly", Level: "model_checking",
+		Units: []Unit{evalUnit([]string{"evaluator/common.go", "evaluator/c14.go"},
+			Harness{Fn: "ZZC14Stop", Quick: p("K", 30), Thorough: p("K", 120), Expect: []string{"stopped", "not-stopped", "witness:end"}, MaxInstr: 3_000_000},
+			Harness{Fn: "ZZC14Event", Quick: p("KE", 40), Thorough: p("KE", 40), Expect: []string{"ev-stopped", "ev-done", "witness:end"}},
+		)},
+		Assumptions: []string{
+			"the platform is a recording stub; its yielder raises Evaluator.Stopped at a symbolic yield number k in [1,K]",
+			"program family: endless while, numeric/array/string/map ranges, recursion, endless mutual recursion, tests before an endless loop, nested loops with break",
+		},
+		Outside:   []string{"pkg/wasm (sleepingYielder, stop export): tinygo-only build with wasm imports, not loadable by go/packages with the installed toolchain — the platform side of the mechanism is not encoded", "programs outside the family; k above K"},
+		LevelText: "bounded symbolic execution of Evaluator.Run/Eval/eval/yield/evalWhile/evalFor/evalFunccall/HandleEvent/TestInfo.Report with the yield number at which the stop flag is raised as a symbolic integer: for every k the run ends with ErrStopped, no yield and no platform effect (except the test summary) follows, there is a yield between any two effects, and the effects are a prefix of a longer run's",
+		LevelNote: "trusts the engine and cvc5; the wasm platform side is outside (see outside_the_claim)",
+		DesignRef: "DESIGN.md §6 C14",
+		Technique: technique,
+	},
+	{
+		ID: "C15", Title: "Events run their handlers in order, isolated, on shared globals", Level: "model_checking",
+		Units: []Unit{evalUnit([]string{"evaluator/common.go", "evaluator/c15.go"},
+			Harness{Fn: "ZZC15Events", Quick: p("E", 2, "H", 2), Thorough: p("E", 3, "H", 3), Expect: []string{"events-ok", "witness:end"}},
+		)},
+		Assumptions: []string{"numeric payloads are unconstrained float64, string payloads from a 4-string alphabet incl. empty and non-ASCII", "handlers are delivered only events whose name has a handler (HandleEvent panics otherwise by contract, as pkg/wasm guards)"},
+		Outside:     []string{"event sequences longer than E; more than H handlers per program; pkg/wasm event decoding"},
+		LevelText:   "bounded symbolic execution of parseEventHandler/addEventParamsToScope/evalProgram/HandleEvent/pushFuncScope/valueFromAny: every rotation of H handler kinds x every accepted signature form (full, empty, `_`) x every event sequence of length E, numeric payloads symbolic; the cumulative trace and globals are compared after every event with the procedure-call semantics",
+		LevelNote:   "trusts the expected-trace oracle in the harness, the engine and cvc5",
+		DesignRef:   "DESIGN.md §6 C15",
+		Technique:   technique,
+	},
 }
